@@ -108,19 +108,19 @@ ADDED = {
  "C03": "Also: is_built_in_function is the name-table lookup (R4).",
  "C04": "can_accept is decided per arity class by partial evaluation when it is not a single match (R3).",
  "C05": "Also: the inlining printer hands every expression child to a scope-carrying printer (R10); the capture analysis itself is decided here too (R11 = C04.R1); prefix minus is registered after every infix group, the premise for printing a captured negative number bare (R12); a printed function literal never begins with the spread token - parentheses are omitted only for a parameter kind whose text does not begin with it (L11).",
- "C06": "Also: numbers and texts are not filtered or rewritten on the way out or in, and strings are matched atomically by the grammar (R7); structural equality is the shared one (R8).",
+ "C06": "Also: to_json writes every finite number as itself and texts unfiltered, on the way out and in (R7); structural equality is the shared one (R8).",
  "C07": "Also: a printed function literal never begins with the spread token (L11).",
- "C09": "Also: the AST builder passes its comment flag on to every recursive call (R3b) and the comment stop set of the grammar is unchanged between comment kinds (R6).",
+ "C09": "Also: the AST builder passes its comment flag on to every recursive call (R3b) and every comment rule consumes the text up to the physical end of the line - its stop look-ahead cannot itself start a comment (R6).",
  "C10": "Also: lambda_infix_usage admits the same gaps as infix_usage alternative by alternative (R8); text that becomes a name, key or string in the tree is read from a pair whose grammar rule cannot contain optional layout - derived from the grammar's atomicity contexts (R9).",
- "C11": "Also: nothing in the list-scalar copy answers before the operator is dispatched (R4); scalar and structural equality are the shared primitives (R6); unary operators negate / invert the operand's own value (R7).",
+ "C11": "Also: nothing in the list-scalar copy answers before the operator is dispatched (R4); scalar and structural equality are the shared primitives (R6); prefix minus is the IEEE negation of the operand, never `0 - x` (R7).",
  "C12": "Also: check_ordering answers expected.contains(ordering) and errors on incomparable operands on every path (R6); no remainder is read from the left side of by_ref().zip(..) in the comparison family (R7).",
  "C13": "Also: can_accept per arity class (R5, partial evaluation when restructured); nothing answers before the operator dispatch, so `[] into f` reaches f (R6); no heap guard is live while a callback runs, in operators and built-ins alike (R7).",
  "C14": "Also: per-arm look-alike primitives (byte vs char APIs) are findings (R4); inside functions the capture analysis visits both the indexed and the index expression (R5).",
  "C15": "Also: the arity rows admit both calling conventions (R4); a hand-written accumulation never subtracts or divides running values (R5); inside functions the capture analysis visits spread operands and call arguments (R6).",
- "C16": "Also: String-returning formatting helpers are followed, non-decimal literals reach an integer parser of the right radix (R1/R3); unary minus on a literal is exact (R4).",
+ "C16": "Also: String-returning formatting helpers are followed, non-decimal literals reach an integer parser of the right radix (R1/R3); a negative literal is read as Negate(number), the exact negation (R4).",
  "C17": "Also: the convert built-in passes its arguments unmodified and returns the conversion's result (R9).",
  "C18": "Also: depth is consumed by calls only - every evaluator-internal edge passes call_depth unchanged and the body runs at exactly +1 (R4); no carrier of a RuntimeError shortens its message, so the depth error reaches the user (R5).",
- "C19": "Also: error sinks on Err edges (R5); `#name` admits every name `.name` admits (R6); validate_portable_value's free-variable analysis is decided (R7 = C04.R1).",
+ "C19": "Also: the --output file is replaced, not patched (R5 = C06.R6); `#name` admits every name `.name` admits (R6); validate_portable_value's free-variable analysis is decided (R7 = C04.R1).",
 }
 
 NOT_APPLICABLE = {
